@@ -612,6 +612,39 @@ static void fam_copy(void)
 			mc_restart_worker();
 		}
 	}
+	/* objects created under different global string hashes (each table keeps the function it was created
+	 * with): equality and deep copy must not care */
+	{
+		static const char *hdocs[] = {"{\"a\":1,\"b\":[2,{\"c\":null}],\"\":\"s\"}", "{\"k1\":{\"k2\":{\"k3\":1}},\"z\":false}", "{}", "[{\"x\":1},{\"y\":2.5}]"};
+		for (unsigned i = 0; i < sizeof hdocs / sizeof hdocs[0]; i++)
+			for (int dir = 0; dir < 2; dir++)
+			{
+				TXL = (size_t)snprintf((char *)TXT, 200, "hash switch dir=%d doc=%s", dir, hdocs[i]);
+				if (!mc_case_begin())
+					continue;
+				long live0 = vf_live();
+				json_global_set_string_hash(dir ? JSON_C_STR_HASH_PERLLIKE : JSON_C_STR_HASH_DFLT);
+				struct json_object *o1 = json_tokener_parse(hdocs[i]);
+				json_global_set_string_hash(dir ? JSON_C_STR_HASH_DFLT : JSON_C_STR_HASH_PERLLIKE);
+				struct json_object *o2 = json_tokener_parse(hdocs[i]), *o3 = NULL;
+				MC_COUNT("calls", 5);
+				if (json_object_deep_copy(o1, &o3, NULL) != 0)
+					mc_violation("copy-failed", "deep copy after a hash switch failed");
+				if (!json_object_equal(o1, o2) || !json_object_equal(o2, o1))
+					mc_violation("unequal-but-values-equal", "two parses of %s under different global string hashes compare unequal", hdocs[i]);
+				if (o3 && (!json_object_equal(o1, o3) || !json_object_equal(o3, o1)))
+					mc_violation("copy-not-equal", "the deep copy made after a hash switch is not equal to its source (%s)", hdocs[i]);
+				json_object_put(o1);
+				json_object_put(o2);
+				json_object_put(o3);
+				json_global_set_string_hash(JSON_C_STR_HASH_DFLT);
+				if (vf_live() != live0)
+				{
+					mc_violation("leak", "%ld blocks leaked", vf_live() - live0);
+					mc_restart_worker();
+				}
+			}
+	}
 	/* the documented public idiom for retained text: json_object_userdata_to_json_string + json_object_free_userdata */
 	for (int variant = 0; variant < 2; variant++)
 	{
